@@ -76,6 +76,10 @@ EXPLANATION += (
     ' Round 11: no output writer edits a record reached from the results it was handed (R-ALIAS/records-read-only).'
 )
 
+EXPLANATION += (
+    ' Round 13: no reader of the marker cache uses a position dataset as a fancy index without an integer type (R-ROLE/positions-as-stored).'
+)
+
 RULE_TEXT = (
     "one obligation per value-identity / provenance / dominance relation "
     "named above; non-trivial when both ends of the relation exist")
